@@ -30,6 +30,9 @@ func c01(c *Ctx) {
 		if class == "tall" {
 			mode = []uint32{1025, 1026, 1024, 64}[(i/tallEvery)%4]
 		}
+		if class == "multi" {
+			mode = []uint32{1026, 1025}[(i/61)%2]
+		}
 		b := model.Gen(rng, class, model.GenOpts{Syn: rng.Intn(6) == 0, Vec: VecBuild && rng.Intn(2) == 0, NoBig: true})
 		extra := ""
 		if class == "tall" {
